@@ -255,13 +255,18 @@ ValLead(c) == \/ c.ckind = "resource_text" /\ c.fill = "zero"
 -----------------------------------------------------------------------------
 (* 4. Required members in what real sessions send                             *)
 
-ReqTypes == {"ListToolsResult", "ListPromptsResult", "ListResourcesResult", "ListResourceTemplatesResult",
+\* CallToolResult+...: what else a raw (Server.AddTool) handler put into the result next to Content: a structured
+\* content (object / array / raw JSON with _meta), IsError, or both.  The required member is still "content".
+CallToolVariants == {"CallToolResult+structured", "CallToolResult+structuredArr", "CallToolResult+structuredMeta",
+                     "CallToolResult+isError", "CallToolResult+structured+isError"}
+ReqTypes == CallToolVariants \cup
+            {"ListToolsResult", "ListPromptsResult", "ListResourcesResult", "ListResourceTemplatesResult",
              "ListRootsResult", "CallToolResult", "GetPromptResult", "ReadResourceResult", "CompleteResult",
              "CreateMessageWithToolsResult", "TextContent", "ImageContent", "AudioContent", "ToolResultContent"}
 ReqMember(t) ==
   CASE t = "ListToolsResult" -> "tools" [] t = "ListPromptsResult" -> "prompts"
     [] t = "ListResourcesResult" -> "resources" [] t = "ListResourceTemplatesResult" -> "resourceTemplates"
-    [] t = "ListRootsResult" -> "roots" [] t = "CallToolResult" -> "content"
+    [] t = "ListRootsResult" -> "roots" [] t = "CallToolResult" -> "content" [] t \in CallToolVariants -> "content"
     [] t = "GetPromptResult" -> "messages" [] t = "ReadResourceResult" -> "contents"
     [] t = "CompleteResult" -> "completion.values" [] t = "CreateMessageWithToolsResult" -> "content"
     [] t = "TextContent" -> "text" [] t \in {"ImageContent", "AudioContent"} -> "data"
